@@ -213,6 +213,15 @@ orientation `s` (collinear vertices allowed). -/
 def ConvexCell (s : Rat) (p : List Pt) : Prop :=
   ∀ v ∈ p, InCell s p v
 
+/-- Strictly convex cell with orientation `s`: every vertex lies strictly on the inner
+side of every edge it is not an end of (no collinear vertices).  For simple polygons this
+is the hull test of `triangulate_dataset` (hull vertex count = polygon vertex count). -/
+def StrictConvex (s : Rat) (p : List Pt) : Prop :=
+  ∀ e ∈ edges p, ∀ v ∈ p, v ≠ e.1 → v ≠ e.2 → 0 < s * cross e.1 e.2 v
+
+instance (s : Rat) (p : List Pt) : Decidable (StrictConvex s p) :=
+  inferInstanceAs (Decidable (∀ e ∈ edges p, ∀ v ∈ p, v ≠ e.1 → v ≠ e.2 → 0 < s * cross e.1 e.2 v))
+
 /-- *fan-sorted*: seen from vertex 0 the other vertices are angularly ordered,
 `s · cross v0 vi vj ≥ 0` for `1 ≤ i < j`. -/
 def FanSorted (s : Rat) : List Pt → Prop
